@@ -1228,6 +1228,67 @@ pub fn fam_resolve(_tier: Tier) -> Vec<Config> {
     out
 }
 
+/// Several scenarios in the same state at the same moment: all failing (once or
+/// finally), all retrying (immediately or after a delay), one of them serial.
+pub fn fam_multi(tier: Tier) -> Vec<Config> {
+    let mut out = Vec::new();
+    for nsc in [3usize, 4] {
+        if nsc == 4 && tier == Tier::Quick {
+            continue;
+        }
+        for conc in [Some(1usize), Some(2), Some(3), None] {
+            for delay in [false, true] {
+                for serial_one in [false, true] {
+                    for sync in [false, true] {
+                        for fails in [1usize, 2] {
+                            for (before, after) in [(false, false), (true, true)] {
+                                let mut c = base(String::new());
+                                let tag = if delay { "retry(1).after(5s)" } else { "retry(1)" };
+                                let scs: Vec<ScenSpec> = (0..nsc)
+                                    .map(|i| {
+                                        if serial_one && i == 1 {
+                                            scen(&[tag, "serial"], &[M])
+                                        } else {
+                                            scen(&[tag], &[M])
+                                        }
+                                    })
+                                    .collect();
+                                c.feats = vec![feat(scs)];
+                                c.items = vec![Item::Feat(0)];
+                                c.before = before;
+                                c.after = after;
+                                c.conc_builder = Some(conc);
+                                c.plan.gates = if sync { GateMode::None } else { GateMode::Steps };
+                                for i in c.scen_infos() {
+                                    let mut v = vec![Outcome::PanicString; fails];
+                                    v.push(Outcome::Pass);
+                                    c.plan.outcomes.insert(i.calls[0].key.clone(), v);
+                                }
+                                if delay {
+                                    c.clock_budget = 1;
+                                    c.clock_step = Duration::from_secs(6);
+                                }
+                                c.bound = Some(if tier == Tier::Quick { 1 } else { 3 });
+                                c.max_execs = if tier == Tier::Quick { 400 } else { 200_000 };
+                                c.name = format!(
+                                    "multi/n{nsc}|c{conc:?}|d{}|s{}|sync{}|f{fails}|b{}a{}",
+                                    u8::from(delay),
+                                    u8::from(serial_one),
+                                    u8::from(sync),
+                                    u8::from(before),
+                                    u8::from(after)
+                                );
+                                out.push(c);
+                            }
+                        }
+                    }
+                }
+            }
+        }
+    }
+    out
+}
+
 pub fn family(name: &str, tier: Tier) -> Vec<Config> {
     match name {
         "seq" => fam_seq(tier),
@@ -1241,6 +1302,7 @@ pub fn family(name: &str, tier: Tier) -> Vec<Config> {
         "verdict" => fam_verdict(tier),
         "l1x" => fam_l1x(tier),
         "resolve" => fam_resolve(tier),
+        "multi" => fam_multi(tier),
         other => panic!("unknown family {other}"),
     }
 }
@@ -1262,7 +1324,7 @@ pub fn families_for(prop: &str) -> Vec<&'static str> {
         other => panic!("no Engine A families for {other}"),
     };
     let mut v: Vec<&'static str> = own.to_vec();
-    for f in ["seq", "frame", "conc", "serial", "retry", "ff", "panic", "l1", "l1x"] {
+    for f in ["seq", "frame", "conc", "serial", "retry", "ff", "panic", "l1", "l1x", "multi"] {
         if !v.contains(&f) {
             v.push(f);
         }
